@@ -57,7 +57,11 @@ FilesInc == [
   \* the LAST entry of a file with a prefix ends in a blank: the blank belongs to the entry
   pfxsp |-> [dir |-> "include", lines |-> << SPrefix(<<W("a")>>), E("b"), E("ab ") >>],
   \* flags in an include file that has neither prefix nor suffix: rejected all the same
-  flgonly |-> [dir |-> "include", lines |-> << E("b"), SFlags(<<"s">>) >>]
+  flgonly |-> [dir |-> "include", lines |-> << E("b"), SFlags(<<"s">>) >>],
+  \* word lists WITHOUT any ##! line: untidy (blank line, indentation) and without final newline (the harness
+  \* writes files whose name starts with nonl without the last line break)
+  untidy |-> [dir |-> "include", lines |-> << E("ab"), SBlank(""), (E("b") @@ [ind |-> "  "]) >>],
+  nonl   |-> [dir |-> "include", lines |-> << E("a"), E("bb") >>]
 ]
 
 FilesIncAll == FilesInc @@ ("v8.1" :> [dir |-> "include", lines |-> << E("ab"), E("b") >>])
@@ -75,6 +79,10 @@ FilesExc == [
   xd2   |-> [dir |-> "exclude", lines |-> << SDefine("s", <<W("a")>>), SEntry(<<W("b"), PRef("s")>>) >>],
   \* an exclusion that ends in a blank is another text than the entry without it
   xsp   |-> [dir |-> "exclude", lines |-> << E("ba "), E("a") >>],
+  \* F and an exclude file use a name that only the INCLUDING file defines: both sides stay unexpanded
+  \* while the exclusion is carried out
+  f4    |-> [dir |-> "include", lines |-> << SEntry(<<W("a"), PRef("w")>>), E("b"), E("ab") >>],
+  xw    |-> [dir |-> "exclude", lines |-> << SEntry(<<W("a"), PRef("w")>>) >>],
   xc    |-> [dir |-> "exclude", lines |-> << SComment("##! nothing to exclude here"), SBlank(""), SDefine("u", <<W("b")>>) >>],
   \* a word list whose order shows in the output (no common prefixes), with a repeated entry
   f3    |-> [dir |-> "include", lines |-> << E("cu"), E("wg"), E("cu"), E("nm"), E("py") >>],
@@ -105,7 +113,7 @@ VocInc == << E("a"), E("b"), SEntry(<<PRef("v")>>), SEntry(<<PRef("w"), W("a")>>
              SDefine("v", <<W("bb")>>), SDefine("w", <<ClsAB>>) >>
           \o << IncOf("plain"), (IncOf("plain") @@ [ext |-> TRUE]), IncOf("noisy"), IncOf("pfx"), IncOf("sfx"),
                 IncOf("both"), IncOf("defs"), IncOf("nest"), IncOf("nest2"), IncOf("blk"), IncOf("xdir"),
-                IncOf("flg"), IncOf("missing"), IncOf("v8.1"), IncOf("pfxsp"), IncOf("flgonly"),
+                IncOf("flg"), IncOf("missing"), IncOf("v8.1"), IncOf("pfxsp"), IncOf("flgonly"), IncOf("untidy"), IncOf("nonl"),
                 \* the same file once with a suffix replacement and once plain (in either order)
                 SInclude("plain", << <<"a", "b">> >>), SInclude("nest", << <<"b", "\"\"">> >>) >>
           \o Blocks \o << LStore("x"), LLoad("x") >>
@@ -127,7 +135,7 @@ VocExc == << E("b"),
              SInclExc("f1", <<"x1">>, Pairs1), SInclExc("f1", <<"x2">>, Pairs3), SInclExc("f2", <<"x3">>, Pairs4),
              SInclude("f1", Pairs1), SInclude("f1", Pairs2), SInclude("f1", Pairs3), SInclude("f1", Pairs4),
              SInclExc("f1", <<"xd1", "xd2">>, <<>>), SInclExc("f1", <<"xd2", "xd1">>, <<>>), SInclExc("f3", <<"xd2", "x3", "xd1">>, <<>>),
-             SInclude("f1", Pairs5), SInclude("f2", Pairs3), SInclude("f2", <<>>), SInclude("f1", Pairs6), SInclude("f1", Pairs7), SInclExc("f1", <<"xsp">>, <<>>),
+             SInclude("f1", Pairs5), SInclude("f2", Pairs3), SInclude("f2", <<>>), SInclude("f1", Pairs6), SInclude("f1", Pairs7), SDefine("w", <<W("b")>>), SInclExc("f4", <<"xw">>, <<>>), SInclExc("f1", <<"xsp">>, <<>>),
              \* keys that are also the ending of a directive line: only entries may be rewritten
              \* an exclude file without entries listed BEFORE one with entries
              SInclExc("f1", <<"x3", "x2">>, <<>>), SInclExc("f3", <<"xc", "x1", "x3">>, <<>>), SInclExc("f2", <<"xc", "xv">>, <<>>),
@@ -152,7 +160,7 @@ Voc  == [i \in 1..Len(Voc0) |-> WithInd(Voc0[i])]
 (* Growing a well-formed main program.                                     *)
 (***************************************************************************)
 TopKind == meta.kinds[Len(meta.kinds)]
-WordFiles == {"plain", "noisy", "nest", "xdir", "f1", "f2", "f3", "v8.1"}
+WordFiles == {"plain", "noisy", "nest", "xdir", "f1", "f2", "f3", "v8.1", "untidy", "nonl", "f4"}
 
 CanAdd(l) ==
     /\ Len(prog) < MaxLines
